@@ -23,5 +23,5 @@ Definition enum_ecdh (c : small_curve) : bool :=
       | _, _ => false
       end) (Zrange 1 n)) (Zrange 1 n) end) (firstn 3 pts).
 
-Lemma small_enum_ecdh : forallb enum_ecdh small_curves = true.
+Lemma small_enum_ecdh : forallb enum_ecdh enum_curves = true.
 Proof. vm_cast_no_check (eq_refl true). Qed.
